@@ -332,6 +332,19 @@ const sniffResetInput = "SPDXVersion: SPDX-2.3\nDataLicense: CC0-1.0\n"
 func c06NegativeProperty(t *rapid.T) {
 	(&formats.Sniffer{}).SniffReader(strings.NewReader(sniffResetInput)) //nolint:errcheck
 	// a short history of detections: the verdict on each input must not depend on what was sniffed before
+	if rapid.IntRange(0, 3).Draw(t, "statefulPair") == 0 {
+		// a non-JSON input that leaves the line sniffer with half a declaration (tag seen, no supported version),
+		// followed by a non-JSON input that has a quoted version but no tag: neither declares a format
+		hx.Class("kind:tag_without_version_then_version_without_tag")
+		poison := rapid.SampledFrom([]string{"SPDXVersion: SPDX-2.1\nDataLicense: CC0-1.0\n", "SPDXVersion:\n", "x\nSPDXVersion: SPDX-3.0\ny\n", "# SPDXVersion: none\n"}).Draw(t, "poison")
+		victim := rapid.SampledFrom([]string{"spdxVersion: 'SPDX-2.2'\n", "a\n\"SPDX-2.3\" b\n", "version = \"SPDX-2.3\"\n", "- 'SPDX-2.3'\n"}).Draw(t, "victim")
+		for _, in := range []string{poison, victim, poison, victim} {
+			hx.Eval()
+			commonSniffChecks(t, []byte(in), "tag-value fragment")
+		}
+		hx.NonTrivial(hx.Digest("pair", poison, victim))
+		return
+	}
 	n := rapid.IntRange(1, 4).Draw(t, "history")
 	for i := 0; i < n; i++ {
 		c06NegativeOne(t)
